@@ -183,6 +183,34 @@ fn wild_match(pat: &[char], name: &[char]) -> bool {
         None => name.is_empty(),
         Some('*') => (0..=name.len()).any(|k| wild_match(&pat[1..], &name[k..])),
         Some('?') => !name.is_empty() && wild_match(&pat[1..], &name[1..]),
+        Some('[') => {
+            // character class `[abc]`, `[a-c]`, `[!a-c]`: one character of the name
+            let close = match pat.iter().skip(2).position(|c| *c == ']') {
+                Some(k) => k + 2,
+                None => return name.first() == Some(&'[') && wild_match(&pat[1..], &name[1..]),
+            };
+            let (neg, body) = if pat.get(1) == Some(&'!') { (true, &pat[2..close]) } else { (false, &pat[1..close]) };
+            let c = match name.first() {
+                Some(c) => *c,
+                None => return false,
+            };
+            let mut hit = false;
+            let mut i = 0;
+            while i < body.len() {
+                if i + 2 < body.len() && body[i + 1] == '-' {
+                    if body[i] <= c && c <= body[i + 2] {
+                        hit = true;
+                    }
+                    i += 3;
+                } else {
+                    if body[i] == c {
+                        hit = true;
+                    }
+                    i += 1;
+                }
+            }
+            hit != neg && wild_match(&pat[close + 1..], &name[1..])
+        }
         Some(c) => name.first() == Some(c) && wild_match(&pat[1..], &name[1..]),
     }
 }
